@@ -25,7 +25,8 @@ KsProj(n) ==
                                                       : r \in {journals[x].recs[y] : y \in 1..Len(journals[x].recs)}}
                                                : x \in 1..Len(journals)}],
      sealed  |-> Len(lsm[id].sl),
-     filter  |-> filt[id]]
+     filter  |-> filt[id] # "none",
+     fkind   |-> filt[id]]
 
 ViewProj(w) ==
     [vid |-> w.vid,
